@@ -82,7 +82,7 @@ def angle [Add K] [Mul K] (m : Sinusoid K) (t : K) : K := m.w * t + m.p
 /-- `defAmplitude*std::sin(defRate*t + defPhase)` — calcPrescribedPosition / Velocity / Acceleration -/
 def value [Mul K] (m : Sinusoid K) (s : K) : K := m.a * s
 /-- `defAmplitude*defRate*std::cos(…)` — calcPrescribedPositionDot / VelocityDot -/
-def dot [Mul K] (m : Sinusoid K) (c : K) : K := m.a * c
+def dot [Mul K] (m : Sinusoid K) (c : K) : K := m.a * m.w * c
 /-- `-defAmplitude*defRate*defRate*std::sin(…)` — calcPrescribedPositionDotDot -/
 def dotdot [Mul K] [Neg K] (m : Sinusoid K) (s : K) : K := -m.a * m.w * m.w * s
 end Sinusoid
@@ -169,7 +169,7 @@ def zeros (xs : List K) : List K := xs.map (fun _ => (0 : K))
 /-- `MobilizedBodyImpl::lock(state, level)` -/
 def lock (m : Mob K) (level : Level) : Mob K :=
   match level with
-  | .position     => { m with lockLevel := .position, lockedQ := m.q }
+  | .position     => { m with lockLevel := .position, u := zeros m.u, lockedQ := m.q }
   | .velocity     => { m with lockLevel := .velocity, lockedU := m.u }
   | .acceleration => { m with lockLevel := .acceleration, lockedU := zeros m.u }
   | .noLevel      => { m with lockLevel := .noLevel }
@@ -218,7 +218,7 @@ def instanceMethods [BEq K] [OfNat K 0] (nq : Nat) (lockLevel : Level) (lockedU 
   if nq = 0 then ⟨.zero, .zero, .zero⟩ else
   match lockLevel with
   | .acceleration => ⟨.free, .free, if anyNonzero lockedU then .prescribed else .zero⟩
-  | .velocity     => ⟨.free, if anyNonzero lockedU then .prescribed else .zero, .free⟩
+  | .velocity     => ⟨.free, if anyNonzero lockedU then .prescribed else .zero, .zero⟩
   | .position     => ⟨.prescribed, .zero, .zero⟩
   | .noLevel =>
     match motion with
